@@ -7,6 +7,7 @@ Read with Python `ast` (the repo code is NOT executed).  Two kinds of output.
    _getr            MAXLOOPS = <int> ; the `while` test is `np.any(abs(r - rold) > tol) and loops < MAXLOOPS`;
                     `rold = r + <int>` (the offset that forces the first pass)
                     r = norm.ppf(prob + (1 - prob) / <int>) * (1 + 1 / (<int> * n))     (starting point)
+   ksingle, kdouble `n = np.asarray(n, dtype=float)` is the only assignment to n (extracted as a Bool fact: fix cd7a6f7 / F55)
    kdouble          signature default `tol=<float literal>` (written m e-k: kept as the pair (m, k)); the call
                     `_getr(n, p, tol)` passes it on unchanged
    order_stats      the chain `if which == "c" / elif "r" / elif "n" / elif "p"` (order kept) ending in
@@ -14,7 +15,7 @@ Read with Python `ast` (the repo code is NOT executed).  Two kinds of output.
                     ('c' has none: scipy broadcasts `binom.sf(r - 1, n, 1 - p)`);
                     'r': `if r.ndim == 0: return int(r[()])` present (python int for scalars);
                     'p': `if n.ndim == 0: return n[()]` present;  'n': result is `np.ceil(n).astype(int)`;
-                    _run_brentq: `a = r`; `b = <int> * a` (twice, equal); `loops < <int>`;
+                    _run_brentq: first statement `r = int(r)` (Bool fact: fix cd7a6f7 / F54); `a = r`; `b = <int> * a` (twice, equal); `loops < <int>`;
                     `brentq(_func, a, b, args=...)` with no tolerance keywords (scipy defaults xtol=2e-12, rtol=4 eps);
                     'p': `brentq(_func, <int>, <int>, args=...)` the fixed bracket, no tolerance keywords
    signature        order_stats(which, *, p=None, c=None, n=None, r=None): keyword-only, all default None
@@ -190,6 +191,11 @@ def _consts(tree, src_text):
     ks = _func(tree.body, "ksingle", "stats.py")
     if [a.arg for a in ks.args.args] != ["p", "c", "n"] or ks.args.defaults:
         raise Unparsable("ksingle signature is not (p, c, n)")
+    # the sample sizes are converted to float64 before any arithmetic (fix cd7a6f7, F55): a FACT, not a grammar rule, so
+    # that taking the conversion away fails the Lean side condition `stats_dtype_tie` rather than the translator
+    for fn, key in ((ks, "ksingleNFloat"), (k, "kdoubleNFloat")):
+        hits = _assigns(fn, "n")
+        c[key] = len(hits) == 1 and _same(hits[0].value, "np.asarray(n, dtype=float)") and hits[0] in _nodoc(fn.body)
     # ---- order_stats -----------------------------------------------------------------------
     o = _func(tree.body, "order_stats", "stats.py")
     if ([a.arg for a in o.args.args] != ["which"] or [a.arg for a in o.args.kwonlyargs] != ["p", "c", "n", "r"]
@@ -254,6 +260,10 @@ def _consts(tree, src_text):
     rb = _func(br["n"], "_run_brentq", "order_stats('n')")
     if [a.arg for a in rb.args.args] != ["c", "r", "p"]:
         raise Unparsable("_run_brentq signature is not (c, r, p)")
+    # the rank is converted to a Python int before the bracket is built (fix cd7a6f7, F54): a fact, see above
+    first_st = _nodoc(rb.body)[0] if _nodoc(rb.body) else None
+    c["nRankToInt"] = (isinstance(first_st, ast.Assign) and len(first_st.targets) == 1 and isinstance(first_st.targets[0], ast.Name) and first_st.targets[0].id == "r"
+                       and _same(first_st.value, "int(r)"))
     aa = _assigns(rb, "a")
     if not aa or not _same(aa[0].value, "r"):
         raise Unparsable("_run_brentq: the bracket does not start at a = r")
@@ -523,6 +533,11 @@ def render(c):
     for k, doc in NAT:
         L.append("/-- %s -/" % doc)
         L.append("def %s : Nat := %d" % (k, c[k]))
+    for key, doc in (("ksingleNFloat", "ksingle: `n = np.asarray(n, dtype=float)` is the only assignment to n (arithmetic in float64 whatever the dtype of the caller's array)"),
+                     ("kdoubleNFloat", "kdouble: `n = np.asarray(n, dtype=float)` is the only assignment to n"),
+                     ("nRankToInt", "order_stats('n') / _run_brentq: the first statement is `r = int(r)` (the bracket is built from a Python int)")):
+        L.append("/-- %s -/" % doc)
+        L.append("def %s : Bool := %s" % (key, "true" if c[key] else "false"))
     L.append("/-- order_stats: the strings tested by the if/elif chain, in order; anything else raises ValueError -/")
     L.append("def whichOrder : List String := [%s]" % ", ".join('"%s"' % w for w in c["whichOrder"]))
     for w in "rnp":
